@@ -34,7 +34,11 @@ func setupLogging() {
 				fmt.Fprintf(&b, " %v=%v", r.Ctx[i], r.Ctx[i+1])
 			}
 			s := b.String()
-			if len(s) > 300 {
+			if strings.HasPrefix(s, "Local logs:") || strings.HasPrefix(s, "nodes in body:") {
+				if len(s) > 8000 { // what the validator computed itself: kept for the violation message
+					s = s[:8000]
+				}
+			} else if len(s) > 300 {
 				s = s[:300]
 			}
 			simrt.RaceOff() // the capture buffer's lock is harness bookkeeping, not program synchronisation
